@@ -1,7 +1,7 @@
 (* Extract.v - monolithic extraction of the executable models and specs.
    ExtrOcamlBasic only: bool, option, list, prod, unit, sumbool map to
    OCaml's; N, Z, positive and nat stay the extracted inductives. *)
-Require Import PV.Base PV.Dec PV.Dewey PV.DeweySpec PV.Pattern PV.AltSpec.
+Require Import PV.Base PV.Dec PV.Dewey PV.DeweySpec PV.Pattern PV.AltSpec PV.Summary.
 Require Extraction.
 Require Import ExtrOcamlBasic.
 Extraction Language OCaml.
@@ -11,4 +11,6 @@ Extraction "model.ml"
   mkv_spec vcmp testc verdict_m verdict_spec letter_conflict
   print_z parse_i64 parse_u64
   pattern_new pm glob_new glob_matches quick best2 fuel_for pkgname_new string_step
-  print exp spec_match.
+  print exp spec_match
+  all_vars kind_of empty apply_op run get print_entry parse_entry is_completed sum_pkgbase sum_pkgversion
+  stream_write stream_init print_stream utf8_valid lines.
